@@ -86,6 +86,8 @@ def random_exec(rng, nops):
             lines.append("FUT %d %d" % (task(), tm()))
         elif r < 0.62:
             lines.append("CANCEL %d" % task())
+        elif r < 0.66:
+            lines.append("CANCELI %d" % task())       # cancel of a task that is not scheduled (never, or not any more)
         elif r < 0.82:
             lines.append("RUN %d" % tm())
         elif r < 0.97:
@@ -119,9 +121,15 @@ def heap_exec(rng):
     if canceller:
         lines.append("RUN 0")
         lines.append("HAS")
+    if n < 16 and rng.random() < 0.5:
+        lines.append("CANCELI %d" % (n + 1))            # a task that was initialised and never handed over
+        lines.append("HAS")
     for t in rng.sample(order, rng.randint(3, min(8, n - 2))):
         lines.append("CANCEL %d" % t)
         lines.append("HAS")
+        if rng.random() < 0.2:
+            lines.append("CANCELI %d" % t)              # ... and once more, now that it is not scheduled any more
+            lines.append("HAS")
     for tm in sorted(rng.sample(range(1, NTT), rng.randint(3, 8))):
         lines.append("RUN %d" % tm)
         lines.append("HAS")
